@@ -57,7 +57,6 @@ DigitSets == { Nines(n) : n \in 1..19 } \cup { OneZeros(n) : n \in 1..20 } \cup 
 VarSubsets == SUBSET {1, 2, 4}
 GvrCases == { [t |-> "gvr", vars |-> vs, digits |-> dg, prefill |-> pf, bytes |-> GetValuesResult(vs, dg)]
               : vs \in VarSubsets, dg \in DigitSets, pf \in {0, 1, 8, 13} }
-BufCases == { [t |-> "abuf", n |-> n, b |-> AlignedBuf(n)] : n \in 0..4100 }
 
 LawHd ==
   /\ c.t = "hd.dec" =>
@@ -112,8 +111,6 @@ LawGvr ==
        /\ \A i \in 1..Len(want) :
             /\ SubSeq(body, d.pairs[i].ns + 1, d.pairs[i].ne) = VarName(want[i])
             /\ SubSeq(body, d.pairs[i].vs + 1, d.pairs[i].ve) = VarValue(want[i], c.digits)
-
-LawBufX == c.t = "abuf" => c.b >= c.n /\ c.b >= 24 /\ c.b % 8 = 0 /\ c.b < Max(c.n, 24) + 8
 
 
 Init == \/ c \in { HdDecCase(b) : b \in HdDecInputs }
